@@ -10,9 +10,9 @@
 -/
 import PG.Lemmas.WriterInv
 import PG.Lemmas.CacheQueries
-import PG.Props.C01
-import PG.Props.C03
-import PG.Props.C04
+import PG.Props.C01m
+import PG.Props.C03m
+import PG.Props.C04m
 import PG.Model.Trace
 import PG.Model.Java
 namespace PG
@@ -22,16 +22,14 @@ theorem C02_parses (recs : List Record) (hs : (Tables.build recs).Small) :
     Cache.parse (Cache.write recs) = .ok (Cache.ofTables (Tables.build recs)) :=
   parse_bytes (Tables.build recs) (build_fits recs hs)
 
-variable (recs : List Record) (hr : ReprR recs) (hs : (Tables.build recs).Small)
-
-theorem C02_class (pm : Bool) (c : Cache) (hc : Cache.parse (Cache.write recs) = .ok c) (name : Bytes) :
+theorem C02_class (recs : List Record) (hr : ReprR recs) (hs : (Tables.build recs).Small) (pm : Bool) (c : Cache) (hc : Cache.parse (Cache.write recs) = .ok c) (name : Bytes) :
     c.remapClass name = (Mapper.build recs pm).remapClass name := by
   have : c = Cache.ofTables (Tables.build recs) := by
     have := C02_parses recs hs; rw [this] at hc; exact (Except.ok.inj hc).symm
   subst this
   rw [cache_class recs _ hr (build_writerSpec recs hr hs), C04_class]
 
-theorem C02_method (pm : Bool) (c : Cache) (hc : Cache.parse (Cache.write recs) = .ok c) (cls m : Bytes) :
+theorem C02_method (recs : List Record) (hr : ReprR recs) (hs : (Tables.build recs).Small) (pm : Bool) (c : Cache) (hc : Cache.parse (Cache.write recs) = .ok c) (cls m : Bytes) :
     c.remapMethod cls m = (Mapper.build recs pm).remapMethod cls m := by
   have : c = Cache.ofTables (Tables.build recs) := by
     have := C02_parses recs hs; rw [this] at hc; exact (Except.ok.inj hc).symm
@@ -39,7 +37,7 @@ theorem C02_method (pm : Bool) (c : Cache) (hc : Cache.parse (Cache.write recs) 
   rw [cache_method recs _ hr (build_writerSpec recs hr hs), C04_method]
 
 /-- frame remapping by line (mapper with or without parameter index) -/
-theorem C02_frame_line (pm : Bool) (c : Cache) (hc : Cache.parse (Cache.write recs) = .ok c) (q : Frame)
+theorem C02_frame_line (recs : List Record) (hr : ReprR recs) (hs : (Tables.build recs).Small) (pm : Bool) (c : Cache) (hc : Cache.parse (Cache.write recs) = .ok c) (q : Frame)
     (hq : q.params = none) : c.remapFrame q = (Mapper.build recs pm).remapFrame q := by
   have : c = Cache.ofTables (Tables.build recs) := by
     have := C02_parses recs hs; rw [this] at hc; exact (Except.ok.inj hc).symm
@@ -47,7 +45,7 @@ theorem C02_frame_line (pm : Bool) (c : Cache) (hc : Cache.parse (Cache.write re
   rw [cache_frames_line recs _ hr (build_writerSpec recs hr hs) q hq, C01_mapper recs pm q hq]
 
 /-- frame remapping by parameter list (mapper built with the parameter index) -/
-theorem C02_frame_params (c : Cache) (hc : Cache.parse (Cache.write recs) = .ok c) (q : Frame) (p : Bytes)
+theorem C02_frame_params (recs : List Record) (hr : ReprR recs) (hs : (Tables.build recs).Small) (c : Cache) (hc : Cache.parse (Cache.write recs) = .ok c) (q : Frame) (p : Bytes)
     (hq : q.params = some p) : c.remapFrame q = (Mapper.build recs true).remapFrame q := by
   have : c = Cache.ofTables (Tables.build recs) := by
     have := C02_parses recs hs; rw [this] at hc; exact (Except.ok.inj hc).symm
@@ -55,19 +53,19 @@ theorem C02_frame_params (c : Cache) (hc : Cache.parse (Cache.write recs) = .ok 
   rw [cache_frames_params recs _ hr (build_writerSpec recs hr hs) q p hq, C03_mapper recs q p hq]
 
 /-- every frame query -/
-theorem C02_frame (c : Cache) (hc : Cache.parse (Cache.write recs) = .ok c) (q : Frame) :
+theorem C02_frame (recs : List Record) (hr : ReprR recs) (hs : (Tables.build recs).Small) (c : Cache) (hc : Cache.parse (Cache.write recs) = .ok c) (q : Frame) :
     c.remapFrame q = (Mapper.build recs true).remapFrame q := by
   cases hq : q.params with
   | none => exact C02_frame_line recs hr hs true c hc q hq
   | some p => exact C02_frame_params recs hr hs c hc q p hq
 
-theorem C02_throwable (c : Cache) (hc : Cache.parse (Cache.write recs) = .ok c) (t : Throwable) :
+theorem C02_throwable (recs : List Record) (hr : ReprR recs) (hs : (Tables.build recs).Small) (c : Cache) (hc : Cache.parse (Cache.write recs) = .ok c) (t : Throwable) :
     remapThrowableWith c.remapClass t = remapThrowableWith (Mapper.build recs true).remapClass t := by
   unfold remapThrowableWith
   rw [C02_class recs hr hs true c hc]
 
 /-- whole-stack-trace remapping, text API -/
-theorem C02_text (c : Cache) (hc : Cache.parse (Cache.write recs) = .ok c) (input : Bytes) :
+theorem C02_text (recs : List Record) (hr : ReprR recs) (hs : (Tables.build recs).Small) (c : Cache) (hc : Cache.parse (Cache.write recs) = .ok c) (input : Bytes) :
     remapText c.remapClass c.remapFrame input =
       remapText (Mapper.build recs true).remapClass (Mapper.build recs true).remapFrame input := by
   have h1 : c.remapClass = (Mapper.build recs true).remapClass := funext (C02_class recs hr hs true c hc)
@@ -75,7 +73,7 @@ theorem C02_text (c : Cache) (hc : Cache.parse (Cache.write recs) = .ok c) (inpu
   rw [h1, h2]
 
 /-- whole-stack-trace remapping, typed API -/
-theorem C02_typed (c : Cache) (hc : Cache.parse (Cache.write recs) = .ok c) (t : Trace) :
+theorem C02_typed (recs : List Record) (hr : ReprR recs) (hs : (Tables.build recs).Small) (c : Cache) (hc : Cache.parse (Cache.write recs) = .ok c) (t : Trace) :
     remapTyped c.remapClass c.remapFrame t =
       remapTyped (Mapper.build recs true).remapClass (Mapper.build recs true).remapFrame t := by
   have h1 : c.remapClass = (Mapper.build recs true).remapClass := funext (C02_class recs hr hs true c hc)
@@ -83,13 +81,13 @@ theorem C02_typed (c : Cache) (hc : Cache.parse (Cache.write recs) = .ok c) (t :
   rw [h1, h2]
 
 /-- signature deobfuscation -/
-theorem C02_signature (c : Cache) (hc : Cache.parse (Cache.write recs) = .ok c) (sig : Bytes) :
+theorem C02_signature (recs : List Record) (hr : ReprR recs) (hs : (Tables.build recs).Small) (c : Cache) (hc : Cache.parse (Cache.write recs) = .ok c) (sig : Bytes) :
     deobfuscateSignature c.remapClass sig = deobfuscateSignature (Mapper.build recs true).remapClass sig := by
   have h1 : c.remapClass = (Mapper.build recs true).remapClass := funext (C02_class recs hr hs true c hc)
   rw [h1]
 
 /-- line-based answers of the mapper are the same whether or not its parameter index was requested -/
-theorem C02_pm_indep (q : Frame) (hq : q.params = none) :
+theorem C02_pm_indep (recs : List Record) (q : Frame) (hq : q.params = none) :
     (Mapper.build recs true).remapFrame q = (Mapper.build recs false).remapFrame q :=
   C01_pm_indep recs q hq
 
